@@ -5,7 +5,7 @@ uninterpreted function of (key, position)."""
 import z3
 from cryptography._model import to_sb, bv_of, axiom, uf_bytes
 from cryptography.hazmat.primitives.ciphers import algorithms, modes
-from tlv.sx.core import ctx, SymInt, Unsupported
+from tlv.sx.core import ctx, SymInt, Unsupported, simp
 from tlv.sx.symbytes import SymBytes
 
 
@@ -24,7 +24,7 @@ def _xor(a, b):
         else:
             tx = z3.BitVecVal(x, 8) if isinstance(x, int) else x
             ty = z3.BitVecVal(y, 8) if isinstance(y, int) else y
-            t = z3.simplify(tx ^ ty)
+            t = simp(tx ^ ty)
             out.append(t.as_long() if z3.is_bv_value(t) else t)
     return SymBytes(out)
 
@@ -96,7 +96,7 @@ class _StreamCtx:
             pt = pos.at(64) if isinstance(pos, SymInt) else z3.BitVecVal(pos, 64)
             ks = f(*(args + [pt]))
             tx = z3.BitVecVal(x, 8) if isinstance(x, int) else x
-            t = z3.simplify(tx ^ ks)
+            t = simp(tx ^ ks)
             out.append(t)
         self.position = self.position + len(d)
         return SymBytes(out)
